@@ -67,6 +67,148 @@ def _is_nul_replacer(pat: str, flags: int) -> tuple[bool, int]:
     return True, n
 
 
+class _Unsupported(Exception):
+    pass
+
+
+def _repl_function(c: Ctx, f: Func, e: ast.AST):
+    """A replacement *function* handed to `<RE>.sub`: a lambda or a module-level function of one parameter whose body only selects
+    among constants by the matched text (`"\ufffd" if m.group() == "\0" else "\n"`, early-return ifs, a literal table indexed
+    by the match).  Returned as a Python callable match-text -> replacement, built by folding the source expression - no code
+    of the repository runs.  None when the body is anything else."""
+    node: ast.AST | None = None
+    if isinstance(e, ast.Lambda):
+        node = e
+    elif isinstance(e, ast.Name):
+        h = c.p.resolve(f.module, e)
+        if isinstance(h, Func) and h.cls is None:
+            node = h.node
+            f = h
+    if node is None:
+        return None
+    ps = [a.arg for a in node.args.posonlyargs + node.args.args]
+    if len(ps) != 1 or node.args.vararg or node.args.kwarg or node.args.kwonlyargs:
+        return None
+    mp = ps[0]
+
+    def ev(x: ast.AST, text: str) -> Any:
+        if isinstance(x, ast.Constant):
+            return x.value
+        if isinstance(x, ast.Call) and isinstance(x.func, ast.Attribute) and isinstance(x.func.value, ast.Name) and x.func.value.id == mp \
+                and x.func.attr == "group" and not x.keywords and (not x.args or (len(x.args) == 1 and isinstance(x.args[0], ast.Constant) and x.args[0].value == 0)):
+            return text
+        if isinstance(x, ast.Subscript) and isinstance(x.value, ast.Name) and x.value.id == mp and isinstance(x.slice, ast.Constant) and x.slice.value == 0:
+            return text
+        if isinstance(x, ast.IfExp):
+            return ev(x.body, text) if ev(x.test, text) else ev(x.orelse, text)
+        if isinstance(x, ast.BoolOp):
+            v: Any = None
+            for y in x.values:
+                v = ev(y, text)
+                if (isinstance(x.op, ast.And) and not v) or (isinstance(x.op, ast.Or) and v):
+                    return v
+            return v
+        if isinstance(x, ast.UnaryOp) and isinstance(x.op, ast.Not):
+            return not ev(x.operand, text)
+        if isinstance(x, ast.Compare) and len(x.ops) == 1:
+            a, b = ev(x.left, text), ev(x.comparators[0], text)
+            op = x.ops[0]
+            try:
+                if isinstance(op, ast.Eq):
+                    return a == b
+                if isinstance(op, ast.NotEq):
+                    return a != b
+                if isinstance(op, ast.In):
+                    return a in b
+                if isinstance(op, ast.NotIn):
+                    return a not in b
+            except TypeError:
+                raise _Unsupported
+            raise _Unsupported
+        if isinstance(x, (ast.Tuple, ast.List, ast.Set)):
+            return tuple(ev(y, text) for y in x.elts)
+        if isinstance(x, ast.Dict) and all(k is not None for k in x.keys):
+            return {ev(k, text): ev(v_, text) for k, v_ in zip(x.keys, x.values)}          # type: ignore[arg-type]
+        if isinstance(x, ast.Subscript):
+            tab, k = ev(x.value, text), ev(x.slice, text)
+            if isinstance(tab, dict) and k in tab:
+                return tab[k]
+            raise _Unsupported          # a missing key raises at run time: not a normaliser
+        if isinstance(x, ast.Call) and isinstance(x.func, ast.Attribute) and x.func.attr == "get" and 1 <= len(x.args) <= 2 and not x.keywords:
+            tab = ev(x.func.value, text)
+            if isinstance(tab, dict):
+                return tab.get(ev(x.args[0], text), ev(x.args[1], text) if len(x.args) == 2 else None)
+            raise _Unsupported
+        if isinstance(x, ast.Name) and x.id != mp:
+            d = f.module.defs.get(x.id)
+            v_ = getattr(d, "value", None)
+            if isinstance(d, (ast.Assign, ast.AnnAssign)) and v_ is not None and not any(
+                    isinstance(y, ast.Name) and y.id == x.id and isinstance(y.ctx, ast.Store) for g in f.module.funcs.values() for y in ast.walk(g.node)):
+                return ev(v_, text)
+        raise _Unsupported
+
+    def run(stmts: list[ast.stmt], text: str) -> Any:
+        for s_ in stmts:
+            if isinstance(s_, ast.Expr) and isinstance(s_.value, ast.Constant):
+                continue
+            if isinstance(s_, ast.Return) and s_.value is not None:
+                return ("ret", ev(s_.value, text))
+            if isinstance(s_, ast.If):
+                r_ = run(s_.body if ev(s_.test, text) else s_.orelse, text)
+                if r_ is not None:
+                    return r_
+                continue
+            raise _Unsupported
+        return None
+
+    def call(text: str) -> str:
+        if isinstance(node, ast.Lambda):
+            v = ev(node.body, text)
+        else:
+            r_ = run(node.body, text)          # type: ignore[attr-defined]
+            if r_ is None:
+                raise _Unsupported
+            v = r_[1]
+        if not isinstance(v, str):
+            raise _Unsupported
+        return v
+    return call
+
+
+def _callable_sub_facts(pat: str, flags: int, fn) -> tuple[frozenset, int]:
+    """Facts established by `<RE>.sub(fn, s)` for a replacement function (see _repl_function), decided on all strings over
+    {CR, LF, NUL, a} up to length 4: no CR / no NUL is left, and the result is exactly what the reference replace chains give
+    (anything else the substitution does to the text is not part of normalisation and forfeits every fact)."""
+    rx = re.compile(pat, flags)
+    n = 0
+    outs: list[tuple[str, str]] = []
+    try:
+        for s in _alphabet_strings("\r\n\0a", 4):
+            n += 1
+            outs.append((s, rx.sub(lambda m: fn(m.group()), s)))
+        nl_ok = all("\r" not in o for (_, o) in outs)
+        nul_ok = all("\0" not in o for (_, o) in outs)
+        r0 = fn("\0") if nul_ok else ""
+    except _Unsupported:
+        return frozenset(), n
+    if "\r" in r0 or "\0" in r0:
+        return frozenset(), n
+    for (s, o) in outs:
+        ref = s
+        if nl_ok:
+            ref = ref.replace("\r\n", "\n").replace("\r", "\n")
+        if nul_ok:
+            ref = ref.replace("\0", r0)
+        if o != ref:
+            return frozenset(), n
+    got: set[str] = set()
+    if nl_ok:
+        got |= {"crlf", "cr"}
+    if nul_ok:
+        got |= {"nul"}
+    return frozenset(got), n
+
+
 class _NormProblem(Problem):
     """var -> frozenset of facts about the string it holds: 'crlf' (no CR LF pair left), 'cr' (no CR left), 'nul' (no NUL left)."""
 
@@ -95,6 +237,11 @@ class _NormProblem(Problem):
                 if rx is None or w is None:
                     return frozenset() if w is not None else None
                 repl = e.args[0].value if isinstance(e.args[0], ast.Constant) else None
+                fn_ = _repl_function(self.c, self.f, e.args[0]) if repl is None else None
+                if fn_ is not None:
+                    got, n = _callable_sub_facts(rx[0], rx[1], fn_)
+                    self.evaluated += n
+                    return w | got
                 if isinstance(repl, str):
                     ok, n = _is_newline_normaliser(rx[0], rx[1], repl)
                     self.evaluated += n
